@@ -5965,7 +5965,15 @@ class FlowIRConcrete(object):
                 # VV: Add anything that is missing just before applying string interpolation
                 ret = FlowIR.inject_default_values_to_component(ret, True)
 
+            # VV: The `override` sections of the component have already been layered in for @platform. The sections
+            # of other platforms may reference variables that only those platforms define; they are not part of
+            # the configuration for @platform so unresolvable references in there must not be errors
+            platform_overrides = ret.pop('override', None)
             ret = FlowIR.fill_in(ret, variables, flowir=self._flowir, label=full_name, is_primitive=is_primitive)
+            if platform_overrides is not None:
+                ret['override'] = FlowIR.fill_in(
+                    platform_overrides, variables, flowir=self._flowir, ignore_errors=True,
+                    label='%s.override' % full_name, is_primitive=is_primitive)
             FlowIR.convert_component_types(
                 ret, ignore_convert_errors=ignore_convert_errors, is_primitive=is_primitive
             )
